@@ -1366,5 +1366,7 @@ func main() {
 	}
 	// 7. formats with explicit argument indexes, %d and a lone % (phase 4, ext.go)
 	extCases(o)
+	// 8. HoverEvent.Contents non-nil (JSON form), one-field components in every position (phase 5, ext.go)
+	phase5Cases(o)
 	_ = hex.EncodeToString
 }
